@@ -17,6 +17,7 @@ MODULES = {
     "C04": "c01_odegen",
     "C06": "c06_rates",
     "C08": "c08_species",
+    "C09": "c09_index",
     "C13": "c13_modifiers",
     "C14": "c14_network",
     "C15": "c14_network",
